@@ -275,3 +275,156 @@ ob("C10", "nd.gen_module", {"mask": R(1, 7), "infer": BOOL, "k0": R(0, 5), "k1":
    funcs=["cdd.compound.gen_utils.gen_module", "cdd.compound.gen_utils.get_functions_and_classes", "cdd.shared.ast_utils.infer_imports", "cdd.shared.ast_utils.optimise_imports"],
    assumes=[ND_ASSUME],
    bound="gen_module on ANY non-empty subset of three class entries using typing names, import inference on/off; first two set iterations permuted by the solver")(nd_gen_module)
+
+
+# ------------------------------------------------------------------------------- call history: whole conversions
+#: parameter types for the EARLIER and the LATER conversion (solver-enumerated): known scalars, an unknown name on its own,
+#: and the same unknown name nested in Optional / Union (both positions) / List, plus Literal and dict
+HIST_TYPES = ("int", "str", "User", "Optional[User]", "Union[int, User]", "List[User]", "Union[User, int]", "Literal['a', 'b']", "dict")
+HIST_FORMATS = ("class", "pydantic", "function", "argparse", "docstring", "json_schema", "sqlalchemy", "sqlalchemy_table", "sqlalchemy_hybrid")
+
+
+def _pick(seq, k):
+    v = seq[0]
+    for j in range(1, len(seq)):
+        if k == j:
+            v = seq[j]
+    return v
+
+
+def _hist_ir(t, dflt):
+    from collections import OrderedDict
+
+    p = {"typ": t, "doc": "the owner"}
+    if dflt:
+        p["default"] = 0
+    return {"name": "C", "doc": "Header line.", "type": "static",
+            "params": OrderedDict((("id", {"typ": "int", "doc": "[PK] the id"}), ("owner", p))), "returns": None}
+
+
+def _hist_convert(fmt, ir):
+    """one whole emit (+ parse back) of `ir` in `fmt`, as a comparable string"""
+    from harness.formats import hop
+
+    try:
+        if fmt.startswith("sqlalchemy"):
+            from harness.c05 import emit_parse
+
+            node, back = emit_parse({"sqlalchemy": "class", "sqlalchemy_table": "table", "sqlalchemy_hybrid": "hybrid"}[fmt], ir)
+            return ast.dump(node) + " / " + _ir_str(back)
+        return _ir_str(hop(fmt, ir))
+    except Exception as e:
+        return "raised %s" % type(e).__name__
+
+
+def _ir_str(ir):
+    out = []
+    for k, v in (ir.get("params") or {}).items():
+        out.append("%s:%s=%r|%s" % (k, v.get("typ"), v.get("default", "<absent>"), v.get("doc")))
+    r = (ir.get("returns") or {}).get("return_type")
+    return ";".join(out) + ("->%s" % (r.get("typ"),) if r else "") + "#" + str(ir.get("doc"))
+
+
+_BASE = {}
+
+
+def _containers():
+    import functools
+    import sys
+
+    seen = set()
+    for name, mod in sorted(sys.modules.items()):
+        if (name == "cdd" or name.startswith("cdd.")) and ".tests" not in name:
+            for k, v in list(vars(mod).items()):
+                if not k.startswith("__") and isinstance(v, (dict, list, set, functools._lru_cache_wrapper)) and id(v) not in seen:
+                    seen.add(id(v))
+                    yield name + "." + k, v
+
+
+def _fresh_state():
+    """put every module-level table of the loaded cdd modules back to its import-time content and empty every lru cache:
+    the state a fresh interpreter would have (CrossHair re-executes the body once per path in ONE process)"""
+    import functools
+    from copy import deepcopy
+
+    import cdd.compound.openapi.utils.emit_utils  # noqa: F401  (patches typ2column_type on import: part of the import-time state)
+    import cdd.docstring.parse  # noqa: F401
+    import cdd.json_schema.parse  # noqa: F401
+    import cdd.pydantic.parse  # noqa: F401
+    import cdd.sqlalchemy.parse  # noqa: F401
+
+    changed = []
+    for key, v in _containers():
+        if isinstance(v, functools._lru_cache_wrapper):
+            v.cache_clear()
+            continue
+        if key not in _BASE:
+            _BASE[key] = deepcopy(v)
+            continue
+        if v != _BASE[key]:
+            changed.append(key)
+            v.clear()
+            (v.extend if isinstance(v, list) else v.update)(deepcopy(_BASE[key]))
+    return changed
+
+
+def _hist_conv(f2):
+    def body(f1, t1, t2, d1, d2):
+        """the result of converting (t2, d2) into f2 must not depend on an earlier conversion of (t1, d1) into f1"""
+        from crosshair.tracers import NoTracing
+
+        ty1, ty2, fm1 = _pick(HIST_TYPES, t1), _pick(HIST_TYPES, t2), _pick(HIST_FORMATS, f1)
+        d1, d2 = bool(d1), bool(d2)
+        with NoTracing():  # the arguments are concrete from here on: the conversions run at native speed on the real objects
+            _fresh_state()
+            later, earlier = _hist_ir(ty2, d2), _hist_ir(ty1, d1)
+            fresh = _hist_convert(f2, later)
+            _hist_convert(fm1, earlier)
+            after = _hist_convert(f2, later)
+            touched = _fresh_state()
+        if fresh != after:
+            return "%s conversion of type %s gives a different result after an earlier %s conversion of type %s (module state touched: %s)" % (
+                f2, ty2, fm1, ty1, ", ".join(touched) or "none")
+        return ""
+
+    return body
+
+
+def _hist_conv_replay(f2):
+    def body(f1, t1, t2, d1, d2):
+        """fresh interpreter for the reference run: nothing ran before it"""
+        import subprocess
+        import sys
+
+        prog = ("import cdd.class_.parse\nfrom harness.c10 import _hist_convert, _hist_ir, HIST_TYPES, HIST_FORMATS\n"
+                "%sprint(_hist_convert(%r, _hist_ir(HIST_TYPES[%d], %r)))")
+        env = dict(os.environ, CHX_REPLAY="1", CHX_NO_INSTRUMENT="1")
+        outs = []
+        for pre in ("", "_hist_convert(HIST_FORMATS[%d], _hist_ir(HIST_TYPES[%d], %r))\n" % (f1, t1, bool(d1))):
+            r = subprocess.run([sys.executable, "-c", prog % (pre, f2, t2, bool(d2))], capture_output=True, text=True, env=env, timeout=120)
+            if r.returncode != 0:
+                return "EXC replay subprocess failed: " + r.stderr[-400:]
+            outs.append(r.stdout)
+        if outs[0] != outs[1]:
+            return "%s conversion of type %s: fresh process and process that first ran a %s conversion of type %s disagree" % (
+                f2, HIST_TYPES[t2], HIST_FORMATS[f1], HIST_TYPES[t1])
+        return ""
+
+    return body
+
+
+for _f2 in HIST_FORMATS:
+    for _tier, _n in (("quick", len(HIST_TYPES) - 1),):
+        ob("C10", "hist.convert.%s%s" % (_f2, "" if _tier == "quick" else ".all"),
+           {"f1": R(0, len(HIST_FORMATS) - 1), "t1": R(0, _n), "t2": R(0, _n), "d1": BOOL, "d2": BOOL}, tier=_tier, T=900, tpath=60,
+           replay=_hist_conv_replay(_f2),
+           funcs=["cdd.sqlalchemy.emit.*", "cdd.sqlalchemy.utils.shared_utils.update_args_infer_typ_sqlalchemy", "cdd.sqlalchemy.utils.emit_utils.typ2column_type",
+                  "cdd.class_.emit.class_", "cdd.function.emit.function", "cdd.argparse_function.emit.argparse_function", "cdd.pydantic.emit.pydantic",
+                  "cdd.json_schema.emit.json_schema", "cdd.docstring.emit.docstring", "and the matching parsers"],
+           assumes=["SOLVER-ENUMERATED: the five arguments are the only symbolic values; once a path has fixed them the three conversions run untraced on the real "
+                    "objects (real module tables, real functools.lru_cache)",
+                    "process state is reset at the start of every path: each module-level dict/list/set of the loaded cdd modules is put back to its import-time "
+                    "content and every lru cache is cleared, so 'before' means 'as in a fresh interpreter'; state kept elsewhere (closures, class attributes) is not reset",
+                    "replay: the reference conversion runs in a fresh interpreter"],
+           bound="an EARLIER whole conversion (any of %d formats x parameter type among the first %d of %r x default present/absent) followed by a LATER conversion into %s "
+                 "(same type set): the later result equals the result obtained before the earlier conversion ran" % (len(HIST_FORMATS), _n + 1, HIST_TYPES, _f2))(_hist_conv(_f2))
